@@ -8,7 +8,7 @@ PROPERTY = {
         "induction over the history (every step function is verified from an arbitrary prior state / from the coupling invariant) is a paper step",
         "difference equations and the positional/incremental coupling are decided on the exact domain only (integers |x| <= 2^10, gains <= 2^4: every intermediate is exact, so the verdict does not depend on evaluation order); units of level B",
         "'positional and incremental outputs coincide while no limit is active' follows from the two verified difference equations by exact algebra (out_pos[k] - out_pos[k-1] = kp*(e-e[k-1]) + ki*e + kd*(var-var[k-1]) when the integrator advances by ki*e): paper lemma; a mechanical product-harness proof needs exact reasoning about IEEE products and did not finish (cvc5, 300 s)",
-        "inside a_pid_fuzzy_run/pos/inc the call a_pid_fuzzy_out_ is replaced by its contract 'assigns only pid.kp, pid.ki, pid.kd' (its scratch-buffer frame is decided in C13)",
+        "inside a_pid_fuzzy_run/pos/inc the call a_pid_fuzzy_out_ is replaced by its contract 'assigns only pid.kp, pid.ki, pid.kd' (its scratch-buffer frame is decided in C13; its exit paths - no active e-set / no active ec-set give exactly the base gains - and the selection of the active rule are the C13 units fuzzy_out_none0/1 and fuzzy_out_gain, run here as well)",
         "'all controller state stays finite' and the neuron's normalised weights beyond clamping: not applicable (needs magnitude reasoning over products; no contract within the solver's reach)",
     ],
     "not_applicable_clauses": ["all controller state stays finite", "neuron weight normalisation"],
@@ -33,3 +33,14 @@ UNITS = [
     P("pid_pos_equation", ["a_pid_pos_"], level="B", bound="exact domain: integer data |x| <= 2^10, gains <= 2^4", timeout=300, cost=60),
     P("pid_inc_equation", ["a_pid_inc_"], level="B", bound="exact domain: integer data |x| <= 2^10, gains <= 2^4", timeout=300, cost=60),
 ]
+
+# the gain scheduler called by the fuzzy step functions (replaced by its frame contract above): its exit paths and the
+# selection of the active rule are C13 units; they are run here too because a scheduler that produces non-finite gains when no
+# rule fires breaks C12's "state stays finite / output follows the equations with the base gains" (round-3 seed C12-4)
+import importlib.util, os
+def _load(name):
+    spec = importlib.util.spec_from_file_location("prop_" + name, os.path.join(os.path.dirname(os.path.abspath(__file__)), name + ".py"))
+    m = importlib.util.module_from_spec(spec)
+    spec.loader.exec_module(m)
+    return m
+UNITS += [u for u in _load("C13").UNITS if u.name in ("fuzzy_out_none0", "fuzzy_out_none1", "fuzzy_out_gain")]
